@@ -124,8 +124,10 @@ static void bit_set(uint8_t *m, size_t i) { if (i < 65536) m[i >> 3] |= (uint8_t
 void dw_reader_init(struct dw_reader *r, const uint8_t *msg, size_t len)
 {
 	r->msg = msg; r->len = len; r->off = 0;
-	memset(r->lstart, 0, sizeof r->lstart);
-	memset(r->seen, 0, sizeof r->seen);
+	/* only offsets < len can ever be marked; `seen` is cleaned by every decode */
+	size_t nb = len / 8 + 2; if (nb > sizeof r->lstart) nb = sizeof r->lstart;
+	memset(r->lstart, 0, nb);
+	memset(r->seen, 0, nb);
 }
 
 int dw_read_header(struct dw_reader *r, struct dw_header *h)
